@@ -47,7 +47,7 @@ def junk_files(rng, sample_pel):
     # JSON user data that is not UTF-8
     j.append(('junk_notutf8', pelbuild.pel([pelbuild.UH(), pelbuild.SRC(), pelbuild.UD(b'{"a": "\xff\xfe"}', sub=1)], eid=0x0BADC0E0)))
     rng.shuffle(j)
-    return j[:rng.randrange(1, len(j) + 1)]
+    return j[:rng.randrange(max(1, (2 * len(j)) // 3), len(j) + 1)]      # (most of the kinds in every directory)
 
 
 def model_undecodable(env, junk):
